@@ -90,7 +90,7 @@ def run_batch(srv, batch, kind, tag, patience=0.3):
     deadline = time.time() + patience
     pending = set(socks)
     while pending and time.time() < deadline:
-        rl, _, _ = select.select(list(pending), [], [], max(0.0, deadline - time.time()))
+        rl = N.wait_readable(list(pending), max(0.0, deadline - time.time()))
         for s in rl:
             r = socks[s]
             try:
